@@ -1012,6 +1012,248 @@ def search_api_cache(ck):
         m.calculate_cis_trans_from_2d()
         probe('calculate_cis_trans_from_2d', smi, m)
 
+# ---------------------------------------------------------------------------------------------------------------
+# third wave: direction marks of the parser at ring closures, reference substituent of __differentiation
+# (coq/model/StereoParse.v)
+
+CLOSURE_TEMPLATES = (('F{f}C=C{ob}1CCOC{cb}1', 2, 6), ('C{ob}1(=C{f}F)CCOC{cb}1', 0, 6), ('C{ob}1OCCC{cb}1=C{f}F', 0, 4),
+                     ('F{f}C=C{ob}1CCN(C)C{cb}1', 2, 7))
+BOND_TOK = {'': 'None', '-': '(Some (1, 1))', '=': '(Some (1, 2))', '/': '(Some (9, 1))', '\\': '(Some (9, 0))'}
+
+PSEUDO_FAMILIES = [('C{0}C=C(C)/[C{2}H](O)/C(C)=C{1}C', [['/', '\\'], ['/', '\\'], ['@', '@@']], True),
+                   ('C{0}C=C(F)/[C{2}H](O)/C(F)=C{1}C', [['/', '\\'], ['/', '\\'], ['@', '@@']], True),
+                   ('C{0}C(Cl)=C(C)/[C{2}H](O)/C(C)=C(Cl){1}C', [['/', '\\'], ['/', '\\'], ['@', '@@']], True),
+                   ('C{0}C=C(C)/C(C(=C{1}C)/C)=C{2}F', [['/', '\\'], ['/', '\\'], ['/', '\\']], False),
+                   ('C{0}C=C(C)/C(=C(F){2}Cl)/C(C)=C{1}C', [['/', '\\'], ['/', '\\'], ['/', '\\']], False),
+                   ('C{0}C(C)=C=C(C)[C{2}H](O)C(C)=C=C(C){1}C'.replace('{0}', '').replace('{1}', ''), [[''], [''], ['@', '@@']], False)]
+
+
+class TraceDiff:
+    """records, for every call of MoleculeStereo.__differentiation, the Morgan classes it is entered with and the
+    (n, m, reference, reference) arguments of the sign translations it makes before it recomputes the classes"""
+
+    def __enter__(self):
+        import sys
+        from chython.containers import MoleculeContainer
+        import chython.algorithms.stereo  # noqa
+        st = sys.modules['chython.algorithms.stereo']
+        self.cls, self.st = MoleculeContainer, st
+        self.diff, self.tct, self.tal, self.morgan = (MoleculeContainer._MoleculeStereo__differentiation, MoleculeContainer._translate_cis_trans_sign,
+                                                      MoleculeContainer._translate_allene_sign, st._morgan)
+        self.records = []
+        self.active = None
+        tr = self
+
+        def differentiation(self, morgan, *a):
+            prev = tr.active
+            tr.active = {'mol': self, 'morgan': dict(morgan), 'ct': [], 'al': []}
+            try:
+                return tr.diff(self, morgan, *a)
+            finally:
+                if tr.active is not None:
+                    tr.records.append(tr.active)
+                tr.active = prev
+
+        def translate_ct(self, n, m, nn, nm, s=None):
+            if tr.active is not None and tr.active['mol'] is self and s is None:
+                tr.active['ct'].append((n, m, nn, nm))
+            return tr.tct(self, n, m, nn, nm, s)
+
+        def translate_al(self, c, nn, nm, s=None):
+            if tr.active is not None and tr.active['mol'] is self and s is None:
+                tr.active['al'].append((c, nn, nm))
+            return tr.tal(self, c, nn, nm, s)
+
+        def morgan(*a, **k):
+            if tr.active is not None:       # classes change: later calls are not compared
+                tr.records.append(tr.active)
+                tr.active = None
+            return tr.morgan(*a, **k)
+
+        MoleculeContainer._MoleculeStereo__differentiation = differentiation
+        MoleculeContainer._translate_cis_trans_sign = translate_ct
+        MoleculeContainer._translate_allene_sign = translate_al
+        st._morgan = morgan
+        return self
+
+    def __exit__(self, *a):
+        self.cls._MoleculeStereo__differentiation = self.diff
+        self.cls._translate_cis_trans_sign = self.tct
+        self.cls._translate_allene_sign = self.tal
+        self.st._morgan = self.morgan
+
+
+def pseudo_inputs(ck):
+    """(spelling, molecule): every E/Z x r/s isomer of acyclic molecules whose dependent centre / bond / allene sits between two
+    constitutionally identical tri- and tetrasubstituted double-bond branches, each in several atom numberings"""
+    from chython import smiles
+    rng = random.Random(f'{ck.seed}:pseudo')
+    out = []
+    for tmpl, opts, _ in PSEUDO_FAMILIES:
+        for combo in itertools.product(*opts):
+            s = tmpl.format(*combo)
+            try:
+                m = smiles(s)
+            except Exception:
+                continue
+            out.append((s, m))
+            for k in range(2 if ck.tier == 'quick' else 8):
+                out.append((s, corpus.renumber(m, rng)))
+    return out
+
+
+PARSE_EXTRA = """
+Definition ob_eqb (a b : option bool) : bool := option_eqb Bool.eqb a b.
+Definition cm_ok (ob cb : option btok) (r : pyres (option bool * option bool)) : bool :=
+  pyres_eqb (fun x y => ob_eqb (fst x) (fst y) && ob_eqb (snd x) (snd y)) (closure_marks ob cb) r.
+Definition chain_ok (t : option btok) (x y : option bool) : bool := ob_eqb (fst (chain_marks t)) x && ob_eqb (snd (chain_marks t)) y.
+Definition wtab (tab : list (Z * Z)) (x : Z) : Z := match zget tab x with Some v => v | None => 0 end.
+Definition ref_ok (tab : list (Z * Z)) (n1 : Z) (n2 : option Z) (a : Z) : bool := ct_ref_opt (wtab tab) n1 n2 =? a.
+"""
+
+
+def corr_parse_marks(ck):
+    """(1) the marks the real parser records for a ring-closure bond in every spelling (bare / '-' / '=' / '/' / '\\' at the opening
+    and at the closing digit, double-bond atom opening or closing the ring) == closure_marks; (2) the reference substituents the
+    real __differentiation passes to the sign translation == ct_ref (minimum Morgan class, first listed wins ties), traced"""
+    from chython.files.daylight.parser import parser
+    from chython.files.daylight.tokenize import smiles_tokenize
+    cases, meta = [], []
+    for tmpl, a, l in CLOSURE_TEMPLATES:
+        for ob, cb, f in itertools.product(BOND_TOK, BOND_TOK, '/\\'):
+            s = tmpl.format(ob=ob, cb=cb, f=f)
+            try:
+                sb = parser(smiles_tokenize(s), False)['stereo_bonds']
+                got = f'Ok ({opt(sb.get(a, {}).get(l), b)}, {opt(sb.get(l, {}).get(a), b)})'
+                f0, f1 = (0, 1) if tmpl.startswith('F') else ((1, 2) if '(=C' in tmpl else (l + 1, l + 2))
+                cases.append(f'chain_ok {BOND_TOK[f]} {opt(sb.get(f0, {}).get(f1), b)} {opt(sb.get(f1, {}).get(f0), b)}')
+                meta.append((s, 'chain mark'))
+            except Exception as e:
+                got = 'Err ' + EXN.get(type(e).__name__, type(e).__name__ if type(e).__name__ in ('IncorrectSmiles',) else 'OtherError')
+            cases.append(f'cm_ok {BOND_TOK[ob]} {BOND_TOK[cb]} ({got})')
+            meta.append((s, 'closure', ob, cb, got))
+            ck.case(('closure-marks', s), nontrivial='Some' in got)
+            ck.count('parser: closure ' + ('raises' if got.startswith('Err') else 'marks recorded' if 'Some' in got else 'no mark'))
+    with TraceDiff() as tr:
+        for s, m in pseudo_inputs(ck):
+            m.flush_cache()
+            try:
+                str(m)
+                m.chiral_tetrahedrons
+            except Exception:
+                pass
+    for rec in tr.records:
+        m, mg = rec['mol'], rec['morgan']
+        tab = lst([f'({zraw(k)}, {zraw(v)})' for k, v in mg.items()])
+        for n, c, a, bb in rec['ct']:
+            e = m.stereogenic_cis_trans.get((n, c))
+            if e is None:
+                continue
+            cases.append(f'ref_ok {tab} {zraw(e[0])} {opt(e[2], zraw)} {zraw(a)} && ref_ok {tab} {zraw(e[1])} {opt(e[3], zraw)} {zraw(bb)}')
+            meta.append((str(m), 'cis/trans reference', (n, c), e, (a, bb)))
+            ck.case(('diff-ref', tuple(m._atoms), n, c, a, bb), nontrivial=e[2] is not None or e[3] is not None)
+            ck.count('differentiation: cis/trans references' + (' (two substituents at an end)' if e[2] is not None or e[3] is not None else ''))
+        for c, a, bb in rec['al']:
+            e = m.stereogenic_allenes.get(c)
+            if e is None:
+                continue
+            cases.append(f'ref_ok {tab} {zraw(e[0])} {opt(e[2], zraw)} {zraw(a)} && ref_ok {tab} {zraw(e[1])} {opt(e[3], zraw)} {zraw(bb)}')
+            meta.append((str(m), 'allene reference', c, e, (a, bb)))
+            ck.case(('diff-ref-al', tuple(m._atoms), c, a, bb))
+            ck.count('differentiation: allene references')
+    ok, failing, log = coqcases.run_cases('c12parse', 'StereoParse', cases, extra=PARSE_EXTRA, shard=300)
+    ck.oblige('correspondence: parser direction marks at ring closures and __differentiation reference substituents == Coq model', ok and not failing,
+              'correspondence', log or str([meta[i] for i in failing[:5]]))
+    ck.extra['parse_cases'] = len(cases)
+    if not ok or failing:
+        search_closure_marks(ck)
+        search_pseudo(ck)
+        ck.unchecked('correspondence StereoParse model vs parser / __differentiation', log[-1500:], [repr(meta[i]) for i in failing[:20]])
+    return ok and not failing
+
+
+def search_closure_marks(ck):
+    """every spelling of the ring-closure bond of an exocyclic double bond denotes, for RDKit, the isomer chython reads (spellings
+    with the SAME mark at both digits are contradictory and left out); spellings that move the one mark between the digits or add
+    an explicit '-' must give one molecule"""
+    from chython import smiles
+    from rdkit import Chem
+    for tmpl, a, l in CLOSURE_TEMPLATES:
+        groups = {}
+        for ob, cb, f in itertools.product(('', '-', '/', '\\'), ('', '-', '/', '\\'), '/\\'):
+            if ob in '/\\' and ob == cb and ob:
+                continue
+            s = tmpl.format(ob=ob, cb=cb, f=f)
+            r0 = Chem.MolFromSmiles(s)
+            try:
+                m = smiles(s)
+            except Exception:
+                continue
+            if r0 is None:
+                continue
+            ck.case(('closure-rdkit', s))
+            ck.count('closure search: spellings')
+            r1 = Chem.MolFromSmiles(str(m))
+            c0, c1 = Chem.MolToSmiles(r0), Chem.MolToSmiles(r1) if r1 is not None else None
+            if c0 != c1:
+                ck.counterexample(f'closure-mark:{s}', 'a direction mark at a ring-closure digit is read as the other E/Z isomer (RDKit reads the same string)',
+                                  {'smiles': s}, f'{m} (RDKit: {c1})', c0, 'RDKit canonical isomeric SMILES',
+                                  replay_py=f"from chython import smiles; print(smiles({s!r}))")
+            groups.setdefault(c0, set()).add(str(m))
+        for c0, outs in groups.items():
+            if len(outs) > 1:
+                ck.counterexample(f'closure-spellings:{tmpl}:{c0}', 'spellings of one ring-closure bond (mark at the opening or closing digit, explicit -) give different molecules',
+                                  {'template': tmpl, 'isomer': c0}, sorted(outs), 'one canonical string', 'RDKit groups the spellings')
+
+
+def search_pseudo(ck):
+    """dependent stereo between identical double-bond branches: the canonical string and the kept labels do not depend on the atom
+    numbering (pure renumbering keeps the meaning of stored signs), the library's own random-order spellings read back as an equal
+    molecule, and inverting the dependent centre gives an equal molecule exactly when the two branches have the same E/Z"""
+    from chython import smiles
+    rng = random.Random(f'{ck.seed}:pseudo-search')
+    for tmpl, opts, centre in PSEUDO_FAMILIES:
+        strs = {}
+        for combo in itertools.product(*opts):
+            s = tmpl.format(*combo)
+            try:
+                m = smiles(s)
+            except Exception:
+                continue
+            ref = str(m)
+            strs[combo] = ref
+            ck.case(('pseudo', s))
+            ck.count('pseudo search: isomers')
+            for k in range(6):
+                r = corpus.renumber(m, rng)
+                r.fix_stereo()
+                if str(r) != ref:
+                    ck.counterexample(f'pseudo-numbering:{s}', 'the canonical SMILES / kept labels of a molecule with a dependent stereo element depend on the atom numbering',
+                                      {'smiles': s, 'numbering': list(r._atoms)}, str(r), ref, 'renumbering (Graph.remap) of the same labelled molecule',
+                                      replay_py=f"from chython import smiles; m=smiles({s!r}); print(m)")
+                    break
+            else:
+                for k in range(6):
+                    sp = format(m, 'r')
+                    try:
+                        back = smiles(sp)
+                    except Exception:
+                        continue
+                    if back != m:
+                        ck.counterexample(f'pseudo-respell:{s}', 'two spellings of one isomer with a dependent stereo element compare unequal', {'smiles': s, 'respelled': sp},
+                                          str(back), ref, 'chython reader on chython random-order output',
+                                          replay_py=f"from chython import smiles; print(smiles({s!r}), smiles({sp!r}))")
+                        break
+        if centre:
+            for (m0, m1, ch), ref in strs.items():
+                if ch != '@' or (m0, m1, '@@') not in strs:
+                    continue
+                same = ref == strs[(m0, m1, '@@')]
+                if same != (m0 == m1):
+                    ck.counterexample(f'pseudo-centre:{tmpl}:{m0}{m1}', 'a centre between two identical branches: inverting it must give an equal molecule exactly when the branches '
+                                      'have the same E/Z configuration', {'template': tmpl, 'marks': (m0, m1)}, f'equal={same}: {ref} / {strs[(m0, m1, "@@")]}',
+                                      f'equal={m0 == m1}', 'symmetry of the template (OpenSMILES reading of the marks)')
+
 
 def search(ck, budget):
     """property-level oracles on the real code, independent of the model"""
@@ -1131,6 +1373,8 @@ def search(ck, budget):
     search_printable(ck)
     search_wedge(ck)
     search_api_cache(ck)
+    search_closure_marks(ck)
+    search_pseudo(ck)
     # (3) labels are kept only on stereogenic centres
     for smi, keeps in (('C[C@](C)(F)Cl', False), ('C[C@H](C)F', False), ('C[C@H](N)F', True), ('F/C=C(/Cl)Cl', False),
                        ('F/C=C/Cl', True), ('CC(C)=[C@]=CC', False), ('C[C@@H]1CC1', False), ('C/C=C/C', True)):
@@ -1345,12 +1589,13 @@ def run(ck):
                         'states of 27 templates. non-trivial = the implementation returned a sign / the molecule has a registry entry / a label is dropped or '
                         'several labels interact. search: corpus stereo molecules respelled by chython and re-read by RDKit; non-trivial = has at least one '
                         'stereo element')
-    proved = common.standard_proof_steps(ck, translators=['stereo', 'elements'], extra_targets=['model/StereoRegistry.vo', 'model/StereoSmiles.vo', 'model/StereoFix.vo', 'model/StereoWedge.vo'])
+    proved = common.standard_proof_steps(ck, translators=['stereo', 'elements'], extra_targets=['model/StereoRegistry.vo', 'model/StereoSmiles.vo', 'model/StereoFix.vo', 'model/StereoWedge.vo', 'model/StereoParse.vo'])
     tied = corr_translate(ck)
     tied = corr_registries(ck) and tied
     tied = corr_smiles_marks(ck) and tied
     tied = corr_fix_stereo(ck) and tied
     tied = corr_wedge(ck) and tied
+    tied = corr_parse_marks(ck) and tied
     search(ck, 150 if ck.tier == 'quick' else 1500)
     ck.extra['proved'] = proved
     ck.extra['tied'] = tied
